@@ -426,6 +426,7 @@ def curated():
     A(mp(P("string"), P("i64"))); A(mp(P("u8"), enum("i32"))); A(ump(P("u16"), P("string"))); A(ump(P("string"), vec(P("u32")))); A(mp(P("i32"), mp(P("u8"), P("string"))))
     A(refw(P("u32"))); A(refw(P("string"))); A(refw(vec(P("i16"))))
     # sums
+    A(opt(P("bool"))); A(vec(opt(P("bool"))));
     A(opt(P("i32"))); A(opt(P("string"))); A(opt(vec(P("u16")))); A(vec(opt(P("u8"))))
     A(res(enum("u8"), P("string"))); A(res(enum("i32"), P("u32"))); A(res(enum("i16"), vec(P("string"))))
     A(var(P("i32"))); A(var(P("i32"), P("string"), vec(P("u8")))); A(var(P("float"), P("u64"), P("string"), opt(P("i8")), pair(P("u8"), P("u8"))))
